@@ -1,5 +1,6 @@
 """C03 — analytic gradients equal the true derivatives of the evaluated log-pdf"""
 import math
+from types import SimpleNamespace
 import numpy as np
 import pints
 
@@ -16,7 +17,10 @@ REQUIRED_THEOREMS = [
     'C03_hier_logn_end_to_end', 'llS1Grad_length_eq',
     'em_hasDerivAt', 'C03_loglik_hasDerivAt', 'C03_s1_layout', 'C03_s1_mech_entry', 'C03_score_agree',
     'C03_posterior_grad', 'C03_hier_chain', 'C03_switch_step', 'C03_switch_history', 'C03_switch_from_new',
-    'C03_switch_columns_published_order']
+    'C03_switch_columns_published_order',
+    'C03_guarded_ll_score', 'C03_guarded_ll_raises', 'C03_guarded_ll_gradient_length', 'C03_guarded_hier_finite_iff',
+    'C03_guarded_hier_raises', 'C03_guarded_prior_finite_iff', 'C03_guarded_hier_score_eq',
+    'C03_guarded_hier_posterior_finite_iff', 'C03_guarded_hier_posterior_score_eq']
 RULE = ('individual likelihoods (1-4 outputs, any error models, random grids, optional fixed parameters), '
         'log-posteriors with pints priors, hierarchical likelihoods / posteriors over random population '
         'compositions (generator of C02); evaluateS1 is compared with __call__ (score) and with Richardson '
@@ -29,7 +33,12 @@ RULE = ('individual likelihoods (1-4 outputs, any error models, random grids, op
         'regimen attached) and the Lean assembly, with independently computed outputs; likelihoods / posteriors / '
         'hierarchical likelihoods over the library one-compartment PK model with a dosing regimen (bolus or '
         'infusion, single or periodic, direct or through a depot; harness/refsim.py as solver) are compared with '
-        'the closed-form solution of the documented equations; non-trivial = >=2 outputs, or fixed parameters, '
+        'the closed-form solution of the documented equations; likelihoods / posteriors / hierarchical likelihoods '
+        '/ hierarchical posteriors over a mechanistic model with a restricted domain (simulate raises one of ten '
+        'kinds of exception outside of it, also exactly on its edge, also with the offending parameter fixed) are '
+        'walked through points inside and outside of the domain (one or several individuals outside), either kind '
+        'of evaluation first: evaluateS1 reports a non-finite score wherever __call__ does, agrees with it and with '
+        'finite differences inside, and both follow the Lean model of the refusing model (C03.guarded); non-trivial = >=2 outputs, or fixed parameters, '
         'or a hierarchical composition with a special or wrapped sub-model, or a history, or a dosed model; '
         'distinct = distinct structural keys')
 ASSUMPTIONS = ['the mechanistic model supplies exact output sensitivities (toy model with closed-form '
@@ -42,6 +51,7 @@ ASSUMPTIONS = ['the mechanistic model supplies exact output sensitivities (toy m
 
 N_HISTORY = {'quick': 110, 'thorough': 1500}
 N_DOSED = {'quick': 14, 'thorough': 120}
+N_DOMAIN = {'quick': 40, 'thorough': 500}
 TAG3 = 'C03.covariate_over_pooled'
 TAG22 = 'C03.sensitivities_with_all_mechanistic_parameters_fixed'
 
@@ -244,7 +254,7 @@ def loglik_case(ctx, chi, rng, i):
 # either order — the sensitivity switch, the selection of sensitivity columns and (for dosed models) the
 # solver the regimen is attached to are state that every such call may touch
 # ------------------------------------------------------------------------------------------------
-def same_point_any_order(ctx, tag, obj, x, inp, s1_first, fd=None, rtol=1e-9):
+def same_point_any_order(ctx, tag, obj, x, inp, s1_first, fd=None, rtol=1e-9, plain_may_raise=False):
     """the property at ONE point, with the two kinds of evaluation made in the given order and repeated:
     score(evaluateS1) == score(__call__) whichever came first, gradient == derivative of __call__"""
     x = np.array(x, float)
@@ -253,7 +263,17 @@ def same_point_any_order(ctx, tag, obj, x, inp, s1_first, fd=None, rtol=1e-9):
     for op in seq:
         with np.errstate(all='ignore'):
             if op == 'call':
-                plain.append(float(obj(x.copy())))
+                if plain_may_raise:
+                    try:
+                        plain.append(float(obj(x.copy())))
+                    except Exception as e:  # noqa
+                        # (plain evaluation reports no score at all here: the property says nothing about
+                        # evaluateS1 at such a point)
+                        ctx.notes.append('%s: plain evaluation raises %s; nothing to compare with'
+                                         % (tag, type(e).__name__))
+                        return None, None
+                else:
+                    plain.append(float(obj(x.copy())))
             else:
                 try:
                     s, g = obj.evaluateS1(x.copy())
@@ -548,7 +568,9 @@ def dosed_case(ctx, chi, rng, i):
 
 
 # ------------------------------------------------------------------------------------------------
-def hier_case(ctx, chi, rng, i, subs=None, n_ids=None):
+def hier_build(chi, rng, subs=None, n_ids=None, mech=None):
+    """a random hierarchical likelihood (population composition of C02's generator) and a point; `mech(j, n_mech,
+    seed)` builds individual j's mechanistic model (default: the toy model)"""
     if subs is None:
         n_ids, subs = c02.gen_case(rng)
     D = sum(nd for _, nd, _, _ in subs)
@@ -558,11 +580,11 @@ def hier_case(ctx, chi, rng, i, subs=None, n_ids=None):
     models = [c02.make_sub(chi, *s, n_ids=n_ids) for s in subs]
     pm = models[0] if bare else chi.ComposedPopulationModel(models)
     lls = []
-    for _ in range(n_ids):
+    for j in range(n_ids):
         nt = int(rng.integers(1, 4))
         times = np.sort(rng.choice(np.arange(1, 20) * 0.5, nt, replace=False))
-        lls.append(chi.LogLikelihood(toy.ToyModel(1, D - 1, seed), chi.GaussianErrorModel(),
-                                     list(rng.uniform(0.5, 3.0, nt)), list(times)))
+        lls.append(chi.LogLikelihood(toy.ToyModel(1, D - 1, seed) if mech is None else mech(j, D - 1, seed),
+                                     chi.GaussianErrorModel(), list(rng.uniform(0.5, 3.0, nt)), list(times)))
     # the individual likelihoods may have served a gradient-based analysis of a reduced model before
     before = None
     if D >= 2 and rng.random() < 0.25:
@@ -606,6 +628,16 @@ def hier_case(ctx, chi, rng, i, subs=None, n_ids=None):
            'x': x, 'cov': cov, 'seed': seed}
     if before:
         inp['individual_likelihoods_before'] = before
+    return SimpleNamespace(n_ids=n_ids, subs=subs, D=D, seed=seed, bare=bare, models=models, pm=pm, lls=lls,
+                           before=before, n_cov=n_cov, cov=cov, top=top, fixed=fixed, free=free, boundary=boundary,
+                           hll=hll, bottom=bottom, x=x, cov_pooled=cov_pooled, inp=inp)
+
+
+def hier_case(ctx, chi, rng, i, subs=None, n_ids=None):
+    b = hier_build(chi, rng, subs, n_ids)
+    n_ids, subs, bare, models, pm, lls, before = b.n_ids, b.subs, b.bare, b.models, b.pm, b.lls, b.before
+    n_cov, cov, top, fixed, free, boundary, hll = b.n_cov, b.cov, b.top, b.fixed, b.free, b.boundary, b.hll
+    bottom, x, cov_pooled, inp = b.bottom, b.x, b.cov_pooled, b.inp
     codes = [c for c, _, _, _ in subs]
     nontriv = any(c in (5, 6) for c in codes) or n_cov or fixed or len(subs) >= 3
     ctx.case('Hierarchical/nsub%d%s%s' % (len(subs), '+cov' if n_cov else '', '+reduced' if fixed else ''),
@@ -686,6 +718,249 @@ def placement(ctx, chi, subs, models, n_ids, bottom, top, cov, lls, pm, inp):
     ctx.agree('C03.place', np.asarray(ds, float), list(mb) + list(mt), inp, rtol=1e-9)
 
 
+# ------------------------------------------------------------------------------------------------
+# a mechanistic model with a restricted DOMAIN: `simulate` raises (any kind of exception a numerical model
+# raises) at parameter points outside of it. chi reports such a point as a score of -infinity; the property:
+# evaluateS1 reports a non-finite score wherever plain evaluation does — at the likelihood, under a prior,
+# and in a hierarchical likelihood / posterior one of whose individuals is outside its model's domain —
+# and behaves as ever inside the domain, before and after visits outside.
+# ------------------------------------------------------------------------------------------------
+DOMAINS = {}      # key -> {'k', 'side', 'bound', 'exc', 'seen'}; shared by the copies chi makes of a model
+
+
+class OutsideDomain(Exception):
+    """a model's own exception class"""
+
+
+def refusal(kind):
+    import myokit
+    classes = {'ValueError': ValueError, 'ArithmeticError': ArithmeticError, 'ZeroDivisionError': ZeroDivisionError,
+               'FloatingPointError': FloatingPointError, 'OverflowError': OverflowError, 'RuntimeError': RuntimeError,
+               'LinAlgError': np.linalg.LinAlgError, 'myokit.SimulationError': myokit.SimulationError,
+               'myokit.NumericalError': myokit.NumericalError, 'own exception class': OutsideDomain}
+    return classes[kind]('the parameters are outside of the domain of the model')
+
+
+REFUSALS = ['ValueError', 'ArithmeticError', 'ZeroDivisionError', 'FloatingPointError', 'OverflowError',
+            'RuntimeError', 'LinAlgError', 'myokit.SimulationError', 'myokit.NumericalError', 'own exception class']
+
+
+def new_domain(k=None, side=None, bound=None, exc='ValueError'):
+    key = len(DOMAINS)
+    DOMAINS[key] = {'k': k, 'side': side, 'bound': bound, 'exc': exc, 'seen': None}
+    return key
+
+
+def outside(d, p):
+    """the domain check of the model (also the harness's own knowledge of where the model refuses)"""
+    if d['side'] is None:
+        return False
+    if d['side'] == 'everywhere':
+        return True
+    v = float(p[d['k']])
+    return v <= d['bound'] if d['side'] == 'low' else v >= d['bound']
+
+
+class DomainToy(toy.ToyModel):
+    """the toy model with a domain check in `simulate`"""
+
+    def __init__(self, n_outputs, n_parameters, seed, offset, key):
+        super().__init__(n_outputs, n_parameters, seed, offset)
+        self._domain_key = key
+
+    def simulate(self, parameters, times):
+        d = DOMAINS[self._domain_key]
+        p = np.asarray(parameters, float)
+        d['seen'] = p.copy()
+        if outside(d, p):
+            raise refusal(d['exc'])
+        return super().simulate(parameters, times)
+
+
+def gen_prior(rng, n, admit_all):
+    pri = []
+    for _ in range(n):
+        r = 0.0 if admit_all else rng.random()
+        pri.append(pints.GaussianLogPrior(1.0, 2.0) if r < 0.6 else
+                   pints.LogNormalLogPrior(0.0, 1.0) if r < 0.8 else pints.UniformLogPrior(0.0, 10.0))
+    return pints.ComposedLogPrior(*pri) if n > 1 else pri[0]
+
+
+def guarded_agree(ctx, label, obj, x, n_par, prior, pop, inds, inp):
+    """chi against the Lean model of the refusing mechanistic model (C03.guarded): scores of both kinds of
+    evaluation from the ingredients (who refuses, the others' scores, population score, prior)"""
+    m_call, m_s1, _ = ctx.model('C03.guarded', int(n_par), prior, pop, inds)
+    with np.errstate(all='ignore'):
+        try:
+            c = float(obj(np.array(x, float)))
+        except Exception:  # noqa
+            return
+        try:
+            s = float(obj.evaluateS1(np.array(x, float))[0])
+        except Exception as e:  # noqa
+            s = core.errkind(e)
+    ctx.agree(label + '.call', c, m_call, inp, rtol=1e-8)
+    ctx.agree(label + '.evaluateS1', s, m_s1, inp, rtol=1e-8)
+
+
+def domain_loglik_case(ctx, chi, rng, i):
+    kinds, grids, obs, n_mech, psi, sig = c01.gen_case(rng)
+    sig = [abs(s) + 0.3 if s <= 0 else s for s in sig]
+    k = int(rng.integers(n_mech))
+    side = 'low' if rng.random() < 0.6 else 'high'
+    bound = float(rng.choice([0.0, 0.3])) if side == 'low' else float(rng.choice([1.8, 2.5]))
+    exc = REFUSALS[int(rng.integers(len(REFUSALS)))]
+    key = new_domain(k, side, bound, exc)
+    model = DomainToy(len(kinds), n_mech, i, c01.offsets(kinds, i), key)
+    ems = [c04.classes(chi)[kd][0]() for kd in kinds]
+    ll = chi.LogLikelihood(model, ems, [list(o) for o in obs], [list(g) for g in grids])
+    names = list(ll.get_parameter_names())
+    x_full = np.concatenate([psi, sig])
+
+    def out_value():
+        r = rng.random()
+        if r < 0.25:
+            return bound                                    # exactly on the edge (refused)
+        return bound - float(rng.uniform(0.05, 1.0)) if side == 'low' else bound + float(rng.uniform(0.05, 1.0))
+    fixed = {}
+    guard_fixed_outside = rng.random() < 0.12 and len(names) > 1
+    if guard_fixed_outside:
+        fixed[names[k]] = out_value()                       # no point of the reduced likelihood is inside
+    if rng.random() < 0.3:
+        others = [j for j in range(len(names)) if j != k]
+        m = int(rng.integers(1, len(others) + 1)) if others else 0
+        for j in rng.choice(others, size=m, replace=False) if m else []:
+            fixed[names[int(j)]] = float(x_full[int(j)])
+    if len(fixed) >= len(names):
+        fixed.pop(sorted(n for n in fixed if n != names[k])[0])
+    if fixed:
+        ll.fix_parameters(fixed)
+    free = [n for n in names if n not in fixed]
+    base = {'object': 'LogLikelihood', 'mechanistic_model': 'toy model whose simulate raises outside its domain',
+            'domain': '%s %s %r is refused' % (names[k], '<=' if side == 'low' else '>=', bound), 'raises': exc,
+            'kinds': kinds, 'times': grids, 'obs': obs, 'n_mech': n_mech, 'toy_seed': i, 'fixed': fixed}
+    ctx.case('LogLikelihood/model_domain%s' % ('+fixed' if fixed else ''),
+             nontrivial='dom/%s/%s/%s/%s' % (''.join(kinds), side, exc, sorted(fixed)), sample=base)
+    ref_model = toy.ToyModel(len(kinds), n_mech, i, c01.offsets(kinds, i))
+    tag = 'C03.LogLikelihood/model_domain'
+    # a walk through points inside and outside of the domain (a sampler's proposals), either kind of evaluation first
+    where = ['outside', 'inside', 'outside' if rng.random() < 0.5 else 'inside']
+    where = [where[int(j)] for j in rng.permutation(3)]
+    walk = []
+    post = None
+    for step, w in enumerate(where):
+        full = x_full * rng.uniform(0.97, 1.03, len(x_full))
+        if w == 'outside' and not guard_fixed_outside:
+            full[k] = out_value()
+        for n, v in fixed.items():
+            full[names.index(n)] = v
+        is_out = outside(DOMAINS[key], full[:n_mech])
+        x = np.array([full[names.index(n)] for n in free])
+        inp = dict(base, x=x, point='outside the domain' if is_out else 'inside the domain', visited_before=list(walk))
+        s1_first = bool(rng.random() < 0.5)
+        s, g = same_point_any_order(ctx, tag, ll, x, inp, s1_first, fd=None if is_out else range(len(x)),
+                                    plain_may_raise=True)
+        walk.append(['outside' if is_out else 'inside', 'evaluateS1 first' if s1_first else '__call__ first'])
+        # the Lean model on independent ingredients: who refuses (the domain), the documented density otherwise
+        ref = None if is_out else float(c01.spec_value(kinds, grids, obs, ref_model, full[:n_mech], full[n_mech:])[0])
+        guarded_agree(ctx, 'C03.guarded/LogLikelihood', ll, x, len(x), None, None, [ref], inp)
+        if step == 1 and rng.random() < 0.7:
+            prior = gen_prior(rng, len(x), admit_all=rng.random() < 0.6)
+            post = chi.LogPosterior(ll, prior)
+        if post is not None:
+            pinp = dict(inp, object='LogPosterior')
+            same_point_any_order(ctx, 'C03.LogPosterior/model_domain', post, x, pinp, bool(rng.random() < 0.5),
+                                 fd=None if is_out else range(len(x)), plain_may_raise=True)
+            guarded_agree(ctx, 'C03.guarded/LogPosterior', post, x, len(x), float(prior(x)), None, [ref], pinp)
+    DOMAINS[key]['side'] = None
+
+
+def domain_hier_case(ctx, chi, rng, i):
+    keys = []
+
+    def mech(j, n_mech, seed):
+        keys.append(new_domain())
+        return DomainToy(1, n_mech, seed, None, keys[-1])
+    b = hier_build(chi, rng, mech=mech)
+    hll, x, n_ids, n_mech = b.hll, b.x, b.n_ids, b.D - 1
+    doms = [DOMAINS[key] for key in keys]
+    # what each individual's model receives at x (all domains open)
+    with np.errstate(all='ignore'):
+        v_open = float(hll(x))
+        if any(d['seen'] is None for d in doms):
+            hll.evaluateS1(x)
+    seen = [np.array(d['seen'], float) for d in doms]
+    # ingredients for the Lean model: every individual's own score at its parameters, the population score
+    pop = ind_scores = None
+    if math.isfinite(v_open):
+        try:
+            kw = {'covariates': b.cov} if b.cov is not None else {}
+            top_free, bottom = x[len(x) - int(np.sum(b.free)):], x[:len(x) - int(np.sum(b.free))]
+            with np.errstate(all='ignore'):
+                eta = b.pm.compute_individual_parameters(top_free, bottom, return_eta=True, **kw)
+                psi = b.pm.compute_individual_parameters(top_free, eta, **kw)
+                ind_scores = [float(ll(np.array(p, float))) for ll, p in zip(b.lls, psi)]
+            pop = v_open - sum(ind_scores)
+        except Exception as e:  # noqa
+            ctx.notes.append('guarded correspondence skipped: ' + repr(e)[:120])
+            pop = None
+    exc = REFUSALS[int(rng.integers(len(REFUSALS)))]
+    base = dict(b.inp, mechanistic_model='toy model whose simulate raises outside its domain', raises=exc)
+    ctx.case('Hierarchical/model_domain%s' % ('+reduced' if b.fixed else ''),
+             nontrivial='Hdom/%s/%s/%s' % ([(c02.KINDS[c], nd, nc) for c, nd, nc, _ in b.subs], bool(b.fixed), exc),
+             sample=base)
+    post = None
+    if int(np.sum(b.free)) > 0 and rng.random() < 0.5:
+        prior = gen_prior(rng, int(np.sum(b.free)), admit_all=True)
+        post = chi.HierarchicalLogPosterior(hll, prior)
+    where = ['outside', 'inside', 'outside' if rng.random() < 0.5 else 'inside']
+    where = [where[int(j)] for j in rng.permutation(3)]
+    walk = []
+    for w in where:
+        refusing = []
+        for d in doms:
+            d['side'] = None
+        if w == 'outside':
+            m = 1 if rng.random() < 0.7 else int(rng.integers(1, n_ids + 1))
+            refusing = sorted(int(j) for j in rng.choice(n_ids, size=m, replace=False))
+        for j, d in enumerate(doms):
+            d['exc'] = exc
+            if n_mech == 0:
+                d['side'] = 'everywhere' if j in refusing else None
+                continue
+            kk = int(rng.integers(n_mech))
+            v = float(seen[j][kk])
+            margin = 0.5 * max(1.0, abs(v))
+            side = 'low' if rng.random() < 0.5 else 'high'
+            sign = 1.0 if side == 'low' else -1.0
+            if j in refusing:
+                bound = v if rng.random() < 0.25 else v + sign * float(rng.uniform(0.05, 1.0))
+            else:
+                bound = v - sign * margin
+            d.update(k=kk, side=side, bound=bound)
+        inp = dict(base, x=x, individuals_outside_their_domain=refusing, visited_before=list(walk),
+                   domains=[None if d['side'] is None else [d['k'], d['side'], d['bound']] for d in doms])
+        s1_first = bool(rng.random() < 0.5)
+        fd = None
+        if not refusing and not b.boundary and len(x):
+            fd = sorted(int(c) for c in rng.choice(len(x), size=min(3, len(x)), replace=False))
+        same_point_any_order(ctx, 'C03.Hierarchical/model_domain', hll, x, inp, s1_first, fd=fd, plain_may_raise=True)
+        walk.append([refusing, 'evaluateS1 first' if s1_first else '__call__ first'])
+        if pop is not None:
+            inds = [None if j in refusing else ind_scores[j] for j in range(n_ids)]
+            guarded_agree(ctx, 'C03.guarded/Hierarchical', hll, x, b.D, None, pop, inds, inp)
+        if post is not None:
+            pinp = dict(inp, object='HierarchicalLogPosterior')
+            same_point_any_order(ctx, 'C03.HierarchicalLogPosterior/model_domain', post, x, pinp,
+                                 bool(rng.random() < 0.5), fd=fd, plain_may_raise=True)
+            if pop is not None:
+                top_free = x[len(x) - int(np.sum(b.free)):]
+                guarded_agree(ctx, 'C03.guarded/HierarchicalLogPosterior', post, x, b.D, float(prior(top_free)), pop,
+                              inds, pinp)
+    for d in doms:
+        d['side'] = None
+
+
 def run(ctx):
     chi = core.import_chi()
     n = 220 if ctx.tier == 'quick' else 2500
@@ -699,6 +974,9 @@ def run(ctx):
         ctx.guard(hier_case, ctx, chi, ctx.sub_rng(2 * i + 1), i)
     for i in range(N_HISTORY[ctx.tier]):
         ctx.guard(toy_history_case, ctx, chi, ctx.sub_rng(3 * 10 ** 6 + i), i)
+    for i in range(N_DOMAIN[ctx.tier]):
+        ctx.guard(domain_loglik_case, ctx, chi, ctx.sub_rng(5 * 10 ** 6 + 2 * i), i)
+        ctx.guard(domain_hier_case, ctx, chi, ctx.sub_rng(5 * 10 ** 6 + 2 * i + 1), i)
     refsim.install()
     for i in range(N_DOSED[ctx.tier]):
         ctx.guard(dosed_case, ctx, chi, ctx.sub_rng(4 * 10 ** 6 + i), i)
